@@ -543,6 +543,165 @@ func init() {
 					c.Sample(map[string]interface{}{"ring": closed, "exact_area": wantA})
 				},
 			},
+			{
+				// many vertices / many members: sizes around powers of two and other likely thresholds
+				Name: "large-inputs", Count: h.Fixed(120, 12000), BudgetSec: 60,
+				Run: func(c *h.Ctx, idx uint64, r *h.Rand) {
+					n := c10sizes[r.Intn(len(c10sizes))]
+					if r.P(1, 4) {
+						n = r.Range(60, 5000)
+					}
+					bx, by := float64(r.Range(-100000, 100000)), float64(r.Range(-100000, 100000))
+					var open []P
+					if r.Bool() {
+						// star-shaped: evenly spread jittered angles, integer-snapped
+						open = make([]P, n)
+						for i := range open {
+							a := 2 * math.Pi * (float64(i) + r.Uniform(0.1, 0.9)) / float64(n)
+							rad := r.Uniform(1000, 5000)
+							open[i] = P{bx + math.Round(rad*math.Cos(a)), by + math.Round(rad*math.Sin(a))}
+						}
+					} else {
+						// a closed lattice walk: arbitrary (self-crossing) vertex list with non-uniform segments
+						open = make([]P, n)
+						for i := range open {
+							open[i] = P{bx + float64(r.Range(-5000, 5000)), by + float64(r.Range(-5000, 5000))}
+						}
+					}
+					closed := gen.Close(open)
+					ring := pToRing(closed)
+					d := func() map[string]interface{} {
+						return map[string]interface{}{"vertices": n, "first": closed[:4], "hash": hashP(open)}
+					}
+					cxE, cyE, a2 := exactCentroid(open)
+					wantA := exact.F(new(big.Rat).Quo(a2, big.NewRat(2, 1)))
+					ext, scale := extentOf(open)
+					ctr, area := planar.CentroidArea(ring)
+					c.Eval()
+					if area != wantA || planar.Area(ring) != wantA || planar.Area(orb.Polygon{ring}) != math.Abs(wantA) {
+						c.Fail("", "planar area of a large integer ring differs from the exact shoelace value", map[string]interface{}{"case": d(), "got": area, "want": wantA})
+					}
+					if a2.Sign() != 0 {
+						tol := 1e-9*scale + 1e-12*float64(n)*ext*(ext*ext/math.Abs(wantA))
+						if !(math.Abs(ctr[0]-cxE) <= tol && math.Abs(ctr[1]-cyE) <= tol) {
+							c.Fail("", "centroid of a large ring differs from the exact area-weighted mean", map[string]interface{}{"case": d(), "got": sv(ctr), "want": []float64{cxE, cyE}, "tol": tol})
+						}
+					}
+					for t := 0; t < 3; t++ {
+						k := 1 + r.Intn(n-1)
+						rot := append(append([]P{}, open[k:]...), open[:k]...)
+						rr := pToRing(gen.Close(rot))
+						if a := planar.Area(rr); a != wantA {
+							c.Fail("", "area of a large ring changes when it starts at another vertex", map[string]interface{}{"case": d(), "rotation": k, "got": a, "want": wantA})
+						}
+						if l, want := planar.Length(rr), exactLen(open, true); !relClose(l, want, 1e-11, 0) {
+							c.Fail("", "length of a large ring changes when it starts at another vertex / is not the sum of its segments", map[string]interface{}{"case": d(), "rotation": k, "got": l, "want": want})
+						}
+						c.Evals(2)
+					}
+					if a := planar.Area(pToRing(gen.Close(gen.Reversed(open)))); a != -wantA {
+						c.Fail("", "reversing a large ring does not negate the area exactly", map[string]interface{}{"case": d(), "got": a, "want": -wantA})
+					}
+					wantL := exactLen(closed, false)
+					for name, got := range map[string]float64{"ring": planar.Length(ring), "line string": planar.Length(orb.LineString(ring)), "polygon": planar.Length(orb.Polygon{ring}), "multi line string": planar.Length(orb.MultiLineString{orb.LineString(ring)}), "collection": planar.Length(orb.Collection{orb.LineString(ring)})} {
+						c.Eval()
+						if !relClose(got, wantL, 1e-11, 0) {
+							c.Fail("", "planar.Length of a large "+name+" differs from the exact sum of segment lengths", map[string]interface{}{"case": d(), "got": got, "want": wantL})
+						}
+					}
+					// open line: a prefix of the walk, length and length-weighted centroid
+					m := 2 + r.Intn(n-1)
+					ls := orb.LineString(ring[:m])
+					if got, want := planar.Length(ls), exactLen(closed[:m], false); !relClose(got, want, 1e-11, 0) {
+						c.Fail("", "planar.Length of a long line string differs from the exact sum of segment lengths", map[string]interface{}{"case": d(), "prefix": m, "got": got, "want": want})
+					}
+					wx, wy, wl := 0.0, 0.0, 0.0
+					for i := 0; i+1 < m; i++ {
+						dl := math.Hypot(ls[i+1][0]-ls[i][0], ls[i+1][1]-ls[i][1])
+						wl += dl
+						wx += dl * ((ls[i][0]+ls[i+1][0])/2 - bx)
+						wy += dl * ((ls[i][1]+ls[i+1][1])/2 - by)
+					}
+					if wl > 0 {
+						lc, _ := planar.CentroidArea(ls)
+						c.Eval()
+						if !(math.Abs(lc[0]-(bx+wx/wl)) <= 1e-9*scale && math.Abs(lc[1]-(by+wy/wl)) <= 1e-9*scale) {
+							c.Fail("", "centroid of a long line string is not the length-weighted mean", map[string]interface{}{"case": d(), "prefix": m, "got": sv(lc), "want": []float64{bx + wx/wl, by + wy/wl}})
+						}
+					}
+					// the vertices as a multi point: count-weighted mean; nearest vertex
+					mpt := orb.MultiPoint(ring[:n])
+					sx, sy := 0.0, 0.0
+					for _, p := range mpt {
+						sx, sy = sx+(p[0]-bx), sy+(p[1]-by)
+					}
+					pc, _ := planar.CentroidArea(mpt)
+					c.Eval()
+					if !(math.Abs(pc[0]-(bx+sx/float64(n))) <= 1e-9*scale && math.Abs(pc[1]-(by+sy/float64(n))) <= 1e-9*scale) {
+						c.Fail("", "centroid of a large multi point is not the mean of its points", map[string]interface{}{"case": d(), "got": sv(pc)})
+					}
+					for t := 0; t < 5; t++ {
+						v := open[r.Intn(n)]
+						q := P{v[0] + float64(r.Range(-40, 40)), v[1] + float64(r.Range(-40, 40))}
+						if t == 0 {
+							q = v
+						}
+						got, want := planar.DistanceFrom(ring, orb.Point{q[0], q[1]}), exactDist(q, closed, false)
+						c.Eval()
+						if !(math.Abs(got-want) <= 1e-9*scale) || (t == 0 && got != 0) {
+							c.Fail("", "DistanceFrom on a large ring is not the minimum point-segment distance", map[string]interface{}{"case": d(), "point": q, "got": got, "want": want})
+						}
+						gd, gi := planar.DistanceFromWithIndex(mpt, orb.Point{q[0], q[1]})
+						best := math.Inf(1)
+						for _, p := range mpt {
+							best = math.Min(best, math.Hypot(p[0]-q[0], p[1]-q[1]))
+						}
+						if !(math.Abs(gd-best) <= 1e-9*scale) || gi < 0 || gi >= n || !(math.Abs(math.Hypot(mpt[gi][0]-q[0], mpt[gi][1]-q[1])-best) <= 1e-9*scale) {
+							c.Fail("", "DistanceFromWithIndex on a large multi point is not the nearest point", map[string]interface{}{"case": d(), "point": q, "got": gd, "index": gi, "want": best})
+						}
+					}
+					// many members: k unit squares (area 1 each, alternating winding) and k short lines and points
+					k := c10sizes[r.Intn(len(c10sizes))]
+					if k > 1100 {
+						k = 100 + r.Intn(1000)
+					}
+					mp := make(orb.MultiPolygon, k)
+					coll := make(orb.Collection, 0, 3*k)
+					cx, cy := 0.0, 0.0
+					for i := range mp {
+						x, y := bx+float64(r.Range(-5000, 5000)), by+float64(r.Range(-5000, 5000))
+						sq := orb.Ring{{x, y}, {x + 1, y}, {x + 1, y + 1}, {x, y + 1}, {x, y}}
+						if r.Bool() {
+							sq.Reverse()
+						}
+						mp[i] = orb.Polygon{sq}
+						cx, cy = cx+(x+0.5-bx), cy+(y+0.5-by)
+						coll = append(coll, orb.Point{x, y})
+						if r.Bool() {
+							coll = append(coll, orb.LineString{{x, y}, {x + 3, y + 4}})
+						}
+						coll = append(coll, mp[i])
+					}
+					mc, ma := planar.CentroidArea(mp)
+					cc, ca := planar.CentroidArea(coll)
+					c.Evals(2)
+					if ma != float64(k) || ca != float64(k) {
+						c.Fail("", "area of many unit squares is not their number", map[string]interface{}{"members": k, "multi_polygon": ma, "collection": ca})
+					}
+					wantC := orb.Point{bx + cx/float64(k), by + cy/float64(k)}
+					for name, got := range map[string]orb.Point{"multi polygon": mc, "collection with lower-dimensional members": cc} {
+						if !(math.Abs(got[0]-wantC[0]) <= 1e-9*scale && math.Abs(got[1]-wantC[1]) <= 1e-9*scale) {
+							c.Fail("", "centroid of a "+name+" of many unit squares is not the mean of their centres", map[string]interface{}{"members": k, "got": sv(got), "want": sv(wantC)})
+						}
+					}
+					c.Nontrivial(h.Mix(uint64(n), uint64(k), hashP(open)))
+					c.Max("vertices in one ring", float64(n), nil)
+					c.Max("members in one multi polygon", float64(k), nil)
+					c.Sample(map[string]interface{}{"vertices": n, "members": k, "exact_area": wantA})
+				},
+			},
 		},
 	})
 }
+
+var c10sizes = []int{63, 64, 65, 127, 128, 129, 255, 256, 257, 258, 511, 512, 513, 1023, 1024, 1025, 2047, 2048, 2049, 4095, 4096, 4097}
